@@ -77,4 +77,5 @@ e78a7a8 C08
 cf8d1d2 C01
 0a9359e C04
 b62f1cf C02
+b91dce8 C04
 LIST
